@@ -26,17 +26,17 @@ open Duck.Spec
 /-! ### definitions -/
 
 /-- a pre-processor (directive) instruction -/
-def isPre (i : Instruction) : Bool :=
+def isPreProcess (i : Instruction) : Bool :=
   match i.ty with
   | .preProcess _ _ => true
   | _ => false
 
 /-- the instruction list without ANY pre-processor instruction -/
-def dropDirectives (is : List Instruction) : List Instruction := is.filter (fun i => !isPre i)
+def dropDirectives (is : List Instruction) : List Instruction := is.filter (fun i => !isPreProcess i)
 
 /-- a selection of instructions that only ever rejects pre-processor instructions -/
 def DropsOnlyDirectives (keep : Instruction → Bool) : Prop :=
-  ∀ i, keep i = false → isPre i = true
+  ∀ i, keep i = false → isPreProcess i = true
 
 /-- the index, in `is.filter keep`, that corresponds to index `k` of `is`:
     the number of kept instructions before `k` -/
@@ -73,13 +73,17 @@ def StepCorr {σ : Type} (pos : Nat → Nat) :
 /-- the run did not stop for lack of fuel -/
 def Finished {σ : Type} (x : RunState σ × RunEnd) : Prop := x.2 ≠ .outOfFuel
 
+instance {σ : Type} (x : RunState σ × RunEnd) : Decidable (Finished x) := by
+  unfold Finished
+  exact inferInstance
+
 /-- two finished runs end the same way: same variables, same state, same kind of end (for a
     failure: same message and same meta info of the failing instruction).  The final line and
     the poll counter are not compared (they are indexes into / counts over different lists). -/
 def SameOutcome {σ : Type} (x y : RunState σ × RunEnd) : Prop :=
   x.1.vars = y.1.vars ∧ x.1.st = y.1.st ∧ x.2 = y.2
 
-theorem dropsOnly_notPre : DropsOnlyDirectives (fun i => !isPre i) := by
+theorem dropsOnly_notPre : DropsOnlyDirectives (fun i => !isPreProcess i) := by
   intro i h
   simpa using h
 
@@ -98,9 +102,29 @@ theorem hasLabel_keep (keep : Instruction → Bool) (hD : DropsOnlyDirectives ke
   | false =>
     have hp := hD i hk
     obtain ⟨si, hs, _⟩ := h
-    unfold isPre at hp
+    unfold isPreProcess at hp
     rw [hs] at hp
     simp at hp
+
+/-- the parse-level equivalence in the form the run-level theorem consumes (the statement of
+    `C14_inline_equiv`; `∃ ty, lineOutcome l = .ok ty` is `LineWellFormed l` unfolded): when the
+    inlining succeeds and every inlined line is accepted on its own, the parse succeeds and its
+    non-include-directive instructions are the instructions of the inlined lines -/
+theorem inline_strip (fs : Fs) (fuel : Nat) (root : Str) (ls : List (Meta × Str))
+    (hin : Spec.inline (worldOf fs) fuel root = (ls, none))
+    (hok : ∀ p ∈ ls, ∃ ty, lineOutcome p.2 = .ok ty) :
+    ∃ is, parseFileF fs fuel root = .ok is ∧ stripDirectives is = ls.map instrOf := by
+  have h := parseFileF_eq_inline fs fuel root
+  rw [hin] at h
+  obtain ⟨is', his', _, _⟩ := parseEach_all_ok ls hok
+  simp only [parseInlined, his'] at h
+  cases hp : parseFileF fs fuel root with
+  | error e => simp [hp, mapOk] at h
+  | ok is =>
+    simp only [hp, mapOk, Except.ok.injEq] at h
+    refine ⟨is, rfl, ?_⟩
+    rw [h]
+    exact parseEach_map ls is' his'
 
 /-! ### the index map -/
 
@@ -280,19 +304,19 @@ theorem runInstruction_no_line (sem : CmdSem σ) (hN : NoAbsoluteJumps sem) (var
         exact hN _ _ _ _ _ _ _ _ _ _ hs
 
 theorem runInstruction_pre (sem : CmdSem σ) (vars : Vars) (s : σ) (i : Instruction) (l : Nat)
-    (h : isPre i = true) : runInstruction sem vars s i l = (.continue none, none, vars, s) := by
+    (h : isPreProcess i = true) : runInstruction sem vars s i l = (.continue none, none, vars, s) := by
   obtain ⟨mi, ty⟩ := i
   cases ty with
-  | empty => simp [isPre] at h
+  | empty => simp [isPreProcess] at h
   | preProcess _ _ => rfl
-  | script si => simp [isPre] at h
+  | script si => simp [isPreProcess] at h
 
 /-! ### one step -/
 
 /-- a step on a dropped instruction is a stutter: next line, nothing else changes -/
 theorem runStep_dropped (sem : CmdSem σ) (is : List Instruction) (labels : List (Str × Nat))
     (halt : Nat → σ → Bool) (rs : RunState σ) (i : Instruction)
-    (hh : halt rs.polls rs.st = false) (hi : is[rs.line]? = some i) (hp : isPre i = true) :
+    (hh : halt rs.polls rs.st = false) (hi : is[rs.line]? = some i) (hp : isPreProcess i = true) :
     runStep sem is labels halt rs =
       .inl { line := rs.line + 1, polls := rs.polls + 1, vars := rs.vars, st := rs.st } := by
   unfold runStep
